@@ -13,6 +13,9 @@ PROP = {
         "name": "tsan",
         "harness": ["harness/C20_tsan.cpp"],
         "san": ["-fsanitize=thread"],
+        # the race detector instruments every access anyway: -O1 keeps the free-running runs fast
+        "units": [{"src": "R:igris/container/dlist.cpp", "opt": "-O1"}, {"src": "R:igris/sync/syslock_mutex.cpp", "opt": "-O1"},
+                  {"src": "R:igris/osinter/wait.cpp", "opt": "-O1"}, {"src": "R:igris/osinter/wait-linux.cpp", "opt": "-O1"}],
         "ldflags": ["-lpthread"],
         "targets": [{"name": "tsan", "quick": 40000, "thorough": 600000, "maxlen": 200, "hang_s": 20, "workers": 8}],
     }],
